@@ -18,7 +18,10 @@
    Err 1 = WideStr (Utf16.ERR_WIDESTR), Err 2 = CellError, Err 3 = Unrecognized (check_len, a
    shared-string index outside the table).
    The model follows /repo after the C06 hardening (commits e31f96c, a869bc8, b7399c9, acf1eed and
-   the SST / wide-string ones): every record body is checked against the fixed fields read from
+   the SST / wide-string ones) and after the fix "xlsb short cell records (BrtShortBlank ..
+   BrtShortIsst) were skipped": next_cell keeps next_col, the column right of the last cell record
+   of the row, and reads a record 0x0C..0x12 as its long twin 0x01..0x07 at that column
+   ([unshort], [cells_loop]).  Every record body is checked against the fixed fields read from
    it before they are read.  The index / slice sites themselves are still guarded steps yielding
    [Panic] here; XlsbRec_proofs.v proves that none of them is reachable any more
    (no_panic_framing, no_panic_reader, no_panic_sst). *)
